@@ -114,6 +114,13 @@ pub fn std_sweep(tier: Tier, flavor: Flavor) -> Vec<Part> {
         let pair = ListMask::of(&[gen::idx(10, 10), si]);
         parts.push(Part { name: "ES-K capacity boundaries of a single symbol", family: gen::es_k(c), cfgs: gen::cfgs(&[ALL_MODES], &[single, pair], &on, &off) });
     }
+    parts.push(Part { name: "ES-N islands between dense runs", family: gen::es_n(tier.pick(8, 12)), cfgs: gen::cfgs(&mq, &[d, a], &on, &off) });
+    // ES-M: multi-run inputs near the capacity of small single-symbol lists under restricted mode sets
+    {
+        let singles = [sq(12, 12), sq(14, 14), sq(16, 16), sq(18, 18), sq(20, 20), sq(8, 32), sq(12, 26)];
+        let sets: Vec<u8> = if flavor == Flavor::RoundTrip { vec![NO_ASCII, 0x02, 0x10] } else { vec![NO_ASCII, 0x02, 0x04, 0x08, 0x10, 0x20, 0x06, 0x18, 0x30] };
+        parts.push(Part { name: "ES-M multi-run inputs x small single lists x restricted mode sets", family: gen::es_i(tier.pick(14, 24), tier.pick(4, 6)), cfgs: gen::cfgs(&sets, &singles, &on, &off) });
+    }
     parts.push(Part { name: "ES-J2 long runs + EDIFACT middle + suffix", family: gen::es_j2(), cfgs: gen::cfgs(&[ALL_MODES, 0x31], &[d], &on, &off) });
     parts.push(Part {
         name: "ES-F2 macro token sequences",
